@@ -23,6 +23,17 @@ from ..normalize import flat
 from ..report import Ledger
 
 
+class _Tok:
+    def __init__(self, name):
+        self.name = name
+
+    def __repr__(self):
+        return self.name
+
+
+_OBS, _OTHER = _Tok("<this observer>"), _Tok("<another object>")
+
+
 def _is_call(st: ast.AST, text: str) -> bool:
     return isinstance(st, ast.Expr) and isinstance(st.value, ast.Call) and norm(st.value.func) == text
 
@@ -93,7 +104,12 @@ def _splice_delegated_generator(prog: Program, L: Ledger, driver, irun):
     off = len(node.body) - len(body)
     node.body = nb[: off + i] + copy.deepcopy(g.body()) + nb[off + i + 1:]
     ast.fix_missing_locations(node)
-    return FuncInfo(irun.name, node, irun.module, irun.cls, irun.kind)
+    out = FuncInfo(irun.name, node, irun.module, irun.cls, irun.kind)
+    SPLICED.add(g.qualname)
+    return out
+
+
+SPLICED: set[str] = set()  # generator methods spliced into irun on this run
 
 
 def run(prog: Program, L: Ledger) -> None:
@@ -117,6 +133,7 @@ def run(prog: Program, L: Ledger) -> None:
     conv = driver.methods.get("converged")
     if not (irun and callobs and conv):
         raise AnalysisError("Driver.irun / call_observers / converged anchor missing")
+    SPLICED.clear()
     irun = _splice_delegated_generator(prog, L, driver, irun)
     irun, callobs, conv = flat(prog, irun, driver), flat(prog, callobs, driver), flat(prog, conv, driver)
     # irun must not be overridden silently by subclasses with a different loop
@@ -177,7 +194,9 @@ def run(prog: Program, L: Ledger) -> None:
     for i in range(-7, 8):
         for s in range(0, 21):
             for li in (1, 2, 3, 4):
-                domain.append({f"{var}.interval": i, "self.step_count": s, "self.logging_interval": li})
+                # identity tests on the observer (`observer is self.default_logger`) are evaluated both ways
+                for same_logger in (True, False):
+                    domain.append({f"{var}.interval": i, "self.step_count": s, "self.logging_interval": li, var: _OBS, "self.default_logger": _OBS if same_logger else _OTHER})
     bad = None
     try:
         for env in domain:
@@ -438,5 +457,27 @@ def _check_o3(prog: Program, L: Ledger, irun: FuncInfo, cfg, lt, steps_param: st
         if k in ("H", "O"):
             seq.append((x.lineno, k))
     order = "".join(k for _, k in sorted(seq))
-    L.check(order in ("HO", "O"), "O3", "irun:header-before-row", f"{irun.module.relpath}:{startup_if.lineno}",
-            f"start-up block events are `{order}`: header must be written once, before the first row", "first log row precedes the header", order)
+    L.check(order == "HO", "O3", "irun:header-before-row", f"{irun.module.relpath}:{startup_if.lineno}",
+            f"start-up block events are `{order}`: the header must be written there, once, before the step-0 observer call", "first log row precedes the header, or a logger that is not due at step 0 (negative interval) never gets a header", order)
+    # the header is written by the one-shot start-up block and nowhere else: a header tied to the logger being *due*
+    # (inside the observer fan-out) is missing for a one-shot logger and repeated on continuation otherwise
+    driver = prog.cls("Driver")
+    irun_orig = driver.methods.get("irun")
+    helpers = set(getattr(irun, "inlined", [])) | set(SPLICED)
+    n_hdr = 0
+    for c_ in calls_in(irun.node):  # the normalised irun, private helpers inlined
+        if isinstance(c_.func, ast.Attribute) and c_.func.attr == "write_header":
+            n_hdr += 1
+            inside = any(x is c_ for x in ast.walk(startup_if))
+            L.check(inside, "O3", "Driver.irun:write_header", f"{irun.module.relpath}:{c_.lineno}",
+                    f"`{norm(c_)}` in irun is outside the one-shot start-up block", "the header is repeated when a run is continued", norm(c_))
+    for fi_ in prog.iter_functions():
+        if fi_.module.name.startswith(f"{prog.package}.io") or fi_ is irun_orig or fi_.qualname in helpers:
+            continue
+        for c_ in calls_in(fi_.node):
+            if isinstance(c_.func, ast.Attribute) and c_.func.attr == "write_header":
+                n_hdr += 1
+                L.violation("O3", f"{fi_.qualname}:write_header", f"{fi_.module.relpath}:{c_.lineno}",
+                            f"`{norm(c_)}` in {fi_.qualname}: the log header is written outside the one-shot start-up block of irun",
+                            "a logger with a negative interval (not due at step 0) gets no header; or the header is repeated when a run is continued", norm(c_))
+    L.floor("write_header call sites outside quansino.io", n_hdr, 1)
